@@ -12,8 +12,9 @@ package main
 //
 //	2 3 4 9   delivery from that sender, payload P(i, s) = [s, i, i>>8]   (9 is not a member)
 //	a b c     CONFLICTING delivery from sender 2 / 3 / 4 (payload [0xee, s, i])
-//	r p       ReceiveFrom(<exp>) on the round's ID (p: with an already cancelled context)
-//	k         cancel the round's latest receive
+//	r p g     ReceiveFrom(<exp>) on the round's ID (p: with an already cancelled context; g: held
+//	          between its first scan and its select, see c11HoldCtx)
+//	k u       cancel / release the round's latest receive
 //	o         delivery from 2 under "zz/"+ID (another namespace; stays undelivered)
 //	w         delivery from 3 under ID+"/" (separator misplaced; stays undelivered)
 //
@@ -100,6 +101,11 @@ func c11Drive(t *testing.T, members []uint64, evs []c11Event) (o c11Outcome) {
 					cancel()
 				}
 				r := &c11Rec{rid: e.rid, done: make(chan string, 1), cancel: cancel}
+				if e.gate {
+					r.hold = &c11HoldCtx{Context: ctx, gate: make(chan struct{})}
+					r.hold.held.Store(true)
+					ctx = r.hold
+				}
 				all = append(all, r)
 				pending = append(pending, r)
 				view := c11View(root, e.path)
@@ -115,6 +121,12 @@ func c11Drive(t *testing.T, members []uint64, evs []c11Event) (o c11Outcome) {
 				for _, r := range pending {
 					if r.rid == e.rid {
 						r.cancel()
+					}
+				}
+			case 'u':
+				for _, r := range pending {
+					if r.rid == e.rid && r.hold != nil {
+						r.hold.release()
 					}
 				}
 			case 'x':
@@ -140,6 +152,9 @@ func c11Drive(t *testing.T, members []uint64, evs []c11Event) (o c11Outcome) {
 		}
 		// release everything so that the bubble can end
 		for _, r := range all {
+			if r.hold != nil {
+				r.hold.release()
+			}
 			r.cancel()
 		}
 		root.Close()
@@ -197,16 +212,20 @@ func (m c11Macro) expand(mi int, next *int, info map[int]c11LifeRecv) []c11Event
 			case 'a', 'b', 'c':
 				s := uint64(ch-'a') + 2
 				evs = append(evs, c11Event{kind: 'd', from: s, cid: cid, payload: c11LifeConflict(i, s)})
-			case 'r', 'p':
+			case 'r', 'p', 'g':
 				rid := c11MacroRidBase + *next
 				*next++
-				evs = append(evs, c11Event{kind: 'r', rid: rid, path: path, local: local, cid: cid, exp: m.exp, pre: ch == 'p'})
+				evs = append(evs, c11Event{kind: 'r', rid: rid, path: path, local: local, cid: cid, exp: m.exp, pre: ch == 'p', gate: ch == 'g'})
 				info[rid] = c11LifeRecv{macro: mi, round: i, pos: pos}
 				last = rid
 				pos++
 			case 'k':
 				if last >= 0 {
 					evs = append(evs, c11Event{kind: 'c', rid: last})
+				}
+			case 'u':
+				if last >= 0 {
+					evs = append(evs, c11Event{kind: 'u', rid: last})
 				}
 			case 'o':
 				evs = append(evs, c11Event{kind: 'd', from: 2, cid: "zz/" + cid, payload: c11LifePayload(i, 2)})
@@ -239,6 +258,7 @@ var c11Tpl2 = []c11Tpl{ // exp = {2}
 	{"2r", "o", 0}, {"r2", "o", 0}, {"22r", "o", 0}, {"222r", "o", 0}, {"92r", "o", 0}, {"r92", "o", 0},
 	{"rk2r", "co", 0}, {"p2r", "co", 0}, {"2p", "o", 0}, {"rkr2", "co", 0}, {"rr2", "ox", 0},
 	{"2ar", "P", 1}, {"o2r", "o", 1}, {"2wr", "o", 1}, {"3r2", "o", 1},
+	{"g2u", "o", 0}, {"g22u", "o", 0}, {"gu2", "o", 0}, {"gk2u", "o", 0}, {"gku2r", "co", 0},
 }
 
 var c11Tpl23 = []c11Tpl{ // exp = {2,3}
@@ -249,6 +269,8 @@ var c11Tpl23 = []c11Tpl{ // exp = {2,3}
 	{"rr23", "ox", 0}, {"2rr3", "ox", 0},
 	{"2a3r", "P", 2}, {"r2a", "P", 1}, {"3b2r", "Q", 2}, {"r3b", "Q", 1}, {"r2ak", "P", 1}, {"2a3br", "?", 2},
 	{"o23r", "o", 1}, {"w23r", "o", 1}, {"r2w3", "o", 1}, {"423r", "o", 1},
+	{"g23u", "o", 0}, {"g2u3", "o", 0}, {"2g3u", "o", 0}, {"g2233u", "o", 0}, {"g23ku", "o", 0}, {"gku23r", "co", 0},
+	{"g2au", "P", 1},
 	{"r2233", "o", 1}, // the second copy of 3 arrives after the collection: a new undelivered message
 }
 
@@ -504,6 +526,14 @@ func c11Lifetimes(c *Ctx, t *testing.T) {
 		one(c11M(1500*scale, 0, "k", e23, "r2k3r", "rk23r", "p23r", "2rk3r", "23p", "rr23", "2rr3")),
 		one(c11M(1500*scale, 0, "a/k", e2, "rk2r", "p2r", "rkr2", "2p", "rr2")),
 		one(c11M(500*scale, 0, "a/k3-", e234, "r23k4r", "2r3r4")),
+		c11LifeTail(0, "z")))
+
+	// receives held in the window between the unlocked scan and select while their messages, a
+	// conflict or a cancellation arrive: only the buffered notify token can wake them
+	c11Life(c, t, "wakeups", cat(
+		one(c11M(1200*scale, 0, "h", e23, "g23u", "g2u3", "2g3u", "g2233u", "g23ku", "gku23r", "r23")),
+		one(c11M(800*scale, 0, "a/h", e2, "g2u", "g22u", "gu2", "gk2u", "gku2r")),
+		one(c11M(100, 0, "p/h", e23, "g2au", "g23u")),
 		c11LifeTail(0, "z")))
 
 	// conflicting retransmissions: every poisoned mailbox legitimately keeps its message; > bound/2
